@@ -30,6 +30,7 @@ try:
     demo_cmd = "go test -vet=off -count=1 " + " ".join(pkgs) if pkgs else None
     if not demo_cmd and mains:
         demo_cmd = "go run ./" + os.path.dirname(mains[0])
+    demo_cmd = os.environ.get("SEED_DEMO_CMD", demo_cmd)
     res["demo_files"], res["demo_cmd"] = demos, demo_cmd
     rc, out = sh(demo_cmd, cwd=scratch)
     res["demo_without_patch_rc"] = rc
@@ -39,7 +40,9 @@ try:
     assert rc == 0, "patch does not apply: " + out
     rc, out = sh("go build ./...", cwd=scratch)
     res["build_rc"] = rc
-    rc, out = sh(demo_cmd, cwd=scratch)
+    # a demonstration that depends on timing may need several runs to fail (SEED_DEMO_COUNT)
+    n = int(os.environ.get("SEED_DEMO_COUNT", "1"))
+    rc, out = sh(demo_cmd.replace("-count=1", "-count=%d" % n) if n > 1 else demo_cmd, cwd=scratch)
     res["demo_with_patch_rc"] = rc
     res["demo_with_patch_tail"] = out[-1200:]
     # existing suite with the patch, demo files removed
